@@ -51,8 +51,17 @@ def gen_stream(rng, puppet_nick, namespecs, t0, t1, n_samples):
             if rng.random() < 0.08:
                 table.setdefault(gen.pick(rng, names), [rng.randrange(10 ** 6), rng.randrange(10 ** 6)])
             for k in table:
-                if rng.random() < 0.03:
-                    table[k] = [rng.randrange(1000), rng.randrange(1000)]      # counter wrap
+                if rng.random() < 0.04:
+                    # counter wrap: both counters, or one of them while the other keeps growing
+                    which = gen.pick(rng, ['both', 'in', 'out'])
+                    if which in ('both', 'in'):
+                        table[k][0] = rng.randrange(1000)
+                    else:
+                        table[k][0] += rng.randrange(1, 10 ** 7)
+                    if which in ('both', 'out'):
+                        table[k][1] = rng.randrange(1000)
+                    else:
+                        table[k][1] += rng.randrange(1, 10 ** 7)
                 else:
                     table[k][0] += rng.randrange(0, 10 ** 7)
                     table[k][1] += rng.randrange(0, 10 ** 7)
